@@ -256,6 +256,10 @@ func init() {
 		fr.i.p.pool.nondet = args[0].(bool)
 		return nil
 	}
+	I[vrtPath+"SolverHint"] = func(fr *frame, args []value) value {
+		fr.i.p.solverHint = argStr(fr, args[0])
+		return nil
+	}
 	I[vrtPath+"Budget"] = func(fr *frame, args []value) value { return nil }
 	I[vrtPath+"Event"] = func(fr *frame, args []value) value {
 		fr.i.p.events = append(fr.i.p.events, argStr(fr, args[0]))
